@@ -450,7 +450,14 @@ def write_summary_file_vue(stats, filepath, year=2025, currency_format="${amount
     # Assemble final HTML
     # '<' is written as \u003c so that no text in the data ('</script>', '<!--') can end or
     # derail the <script> element the JSON is embedded in
-    data_json = json.dumps(spending_data).replace('<', '\\u003c')
+    # Extra fields computed by rules may hold dates (field: when = date): write them as ISO text
+    # instead of failing the whole report
+    def _json_default(value):
+        if hasattr(value, 'isoformat'):
+            return value.isoformat()
+        return str(value)
+
+    data_json = json.dumps(spending_data, default=_json_default).replace('<', '\\u003c')
     data_script = f'window.spendingData = {data_json};'
 
     if not embedded_html:
